@@ -25,6 +25,7 @@ type violation struct {
 	Detail     string
 	Source     string // solver | concordance
 	ReplayPath string
+	Sched      []int64
 }
 
 type pathSummary struct {
@@ -37,6 +38,7 @@ type pathSummary struct {
 	Model     map[string]modelVal
 	Expect    *nativeExpect
 	Decisions int
+	Sched     []int64
 }
 
 type explorer struct {
@@ -73,6 +75,7 @@ type explorer struct {
 	budgetHit     bool
 	modelsTaken   int
 	modelsUnknown int
+	single        bool
 }
 
 type exploreOpts struct {
@@ -141,6 +144,9 @@ func (x *explorer) noteUnknownBranch(c *Term) {
 }
 
 func (x *explorer) push(p []decision) {
+	if x.single {
+		return
+	}
 	x.mu.Lock()
 	x.stack = append(x.stack, p)
 	x.mu.Unlock()
@@ -181,6 +187,16 @@ func explore(w *world, entry *ssa.Function, opts exploreOpts) *explorer {
 		reachSeen: map[string]int{}, funcs: map[string]int{}, intrinsics: map[string]int{}, assumptions: map[string]bool{}}
 	x.cond = sync.NewCond(&x.mu)
 	x.stack = [][]decision{nil}
+	if pfx := os.Getenv("SYMGO_PREFIX"); pfx != "" {
+		var pre []decision
+		for _, f := range strings.Split(pfx, ".") {
+			var c int
+			fmt.Sscanf(f, "%d", &c)
+			pre = append(pre, decision{Choice: c, N: 9})
+		}
+		x.stack = [][]decision{pre}
+		x.single = true
+	}
 	var wg sync.WaitGroup
 	for i := 0; i < opts.Workers; i++ {
 		wg.Add(1)
@@ -276,6 +292,11 @@ func (x *explorer) runPath(pool []*Solver, prefix []decision) {
 	}()
 
 	ps := pathSummary{Harness: x.harness, Trace: m.trace, End: end, Asserts: m.outcomes, Reach: m.reach, Decisions: len(m.trace)}
+	var sched []int64
+	if m.sched != nil {
+		sched = m.sched.delivery
+		ps.Sched = sched
+	}
 	if detail != "" && end != "return" {
 		ps.End = end + ":" + detail
 	}
@@ -318,9 +339,9 @@ func (x *explorer) runPath(pool []*Solver, prefix []decision) {
 				ps.Expect = m.expectations(vals, end)
 				switch end {
 				case "run-panic":
-					vio = append(vio, violation{Harness: x.harness, AssertID: "no-panic", Model: mod, Trace: m.trace, Kind: "panic", Detail: detail, Source: "solver"})
+					vio = append(vio, violation{Harness: x.harness, AssertID: "no-panic", Model: mod, Trace: m.trace, Kind: "panic", Detail: detail, Source: "solver", Sched: sched})
 				case "overflow":
-					vio = append(vio, violation{Harness: x.harness, AssertID: "no-hang", Model: mod, Trace: m.trace, Kind: "hang", Detail: detail, Source: "solver"})
+					vio = append(vio, violation{Harness: x.harness, AssertID: "no-hang", Model: mod, Trace: m.trace, Kind: "hang", Detail: detail, Source: "solver", Sched: sched})
 				}
 			}
 		}()
@@ -345,7 +366,7 @@ func (x *explorer) runPath(pool []*Solver, prefix []decision) {
 	} else if end == "abort" || end == "engine-bug" {
 		x.inconclusive = append(x.inconclusive, end+": "+truncate(detail, 1500))
 	}
-	if end != "infeasible" {
+	if end != "infeasible" && end != "abort" {
 		for _, o := range m.outcomes {
 			st := x.assertStats[o.ID]
 			if st == nil {
@@ -355,7 +376,7 @@ func (x *explorer) runPath(pool []*Solver, prefix []decision) {
 			st[o.Status]++
 			switch o.Status {
 			case "violated":
-				x.violations = append(x.violations, violation{Harness: x.harness, AssertID: o.ID, Model: o.Model, Trace: m.trace, Kind: "assert", Source: "solver"})
+				x.violations = append(x.violations, violation{Harness: x.harness, AssertID: o.ID, Model: o.Model, Trace: m.trace, Kind: "assert", Source: "solver", Sched: sched})
 			case "unknown":
 				x.inconclusive = append(x.inconclusive, "assertion "+o.ID+" undecided (solver unknown) in "+x.harness)
 			}
